@@ -58,6 +58,10 @@ def stimuli_of(labels):
             out.append(('remove', int(args[0])))
         elif name == 'Reply':
             out.append(('reply', int(args[0])))
+        elif name == 'ReplyHeld':
+            out.append(('rheld', int(args[0])))
+        elif name == 'ReplyRelease':
+            out.append(('rrelease', int(args[0])))
         elif name == 'TNew':
             out.append(('tnew', int(args[0])))
         elif name == 'TStart':
@@ -90,6 +94,20 @@ class _Conn:
         self.disconnects += 1
 
 
+class _HeldConn:
+    """A connection whose disconnect() completes when the driver says so (rig L)."""
+
+    def __init__(self, loop):
+        self.gate = loop.create_future()
+
+    async def disconnect(self, reason=None):
+        await self.gate
+
+    def release(self):
+        if not self.gate.done():
+            self.gate.set_result(None)
+
+
 class Run:
     """One execution.  cfg: rig ('L'|'F'|'T'), rt, wt (seconds; wt=-1: server interval),
     items (enabled wishlist entries), tick (seconds per model tick), conc (concretisation seed)."""
@@ -116,6 +134,7 @@ class Run:
         self.loop = None
         self.sent_msgs: list = []
         self._keep = []
+        self.held: list[dict] = []      # replies in flight on a connection whose close is held
 
     # -- recording ---------------------------------------------------------
     def now_ms(self) -> int:
@@ -240,6 +259,8 @@ class Run:
             while nticks < last_op_tick + self.drain_ticks and not self.overflow:
                 await self.step(('advance',))
                 nticks += 1
+            for h in range(1, len(self.held) + 1):
+                await self._op_rrelease(h)
             await self.quiesce()
             gc.collect(0)
             self.poll_errors()
@@ -428,6 +449,50 @@ class Run:
         if exc_name:
             self.log('opexc', what=f'reply:{exc_name}')
 
+    async def _op_rheld(self, tk):
+        """A reply is delivered on a connection whose close is held: the handler stays suspended
+        in `await connection.disconnect()` until `rrelease`."""
+        from aioslsk.events import MessageReceivedEvent
+        h = len(self.held) + 1
+        rec = dict(h=h, done=False)
+        self.held.append(rec)
+        self.log('rin', h=h, tk=tk)
+        if self.cfg['rig'] == 'F':
+            from ..simserver import ScriptedPeer
+            self.peer_no += 1
+            peer = ScriptedPeer(self.net, f'peer{self.peer_no}')
+            ep = await peer.dial(61000, typ='P')
+            rec['writer'] = ep.link.writers[1]          # the client's end of the link
+            rec['writer'].hold_wait_closed = True
+            ep.send_message(self._reply_message(tk))
+            await self.quiesce()
+            return
+        conn = _HeldConn(self.loop)
+        rec['conn'] = conn
+        task = asyncio.create_task(self.client.events.emit(MessageReceivedEvent(self._reply_message(tk), conn)))
+        rec['task'] = task
+
+        def finished(t, rec=rec):
+            rec['done'] = True
+            self.log('rdone', h=rec['h'])
+            if not t.cancelled() and t.exception() is not None:
+                self.log('opexc', what=f'reply:{type(t.exception()).__name__}')
+        task.add_done_callback(finished)
+
+    async def _op_rrelease(self, h):
+        if h > len(self.held) or self.held[h - 1].get('released'):
+            return
+        rec = self.held[h - 1]
+        rec['released'] = True
+        if self.cfg['rig'] == 'F':
+            rec['writer'].release_wait_closed()
+            await self.quiesce()
+            # the handler's end is not observable from outside: by now it is over
+            rec['done'] = True
+            self.log('rdone', h=h)
+        else:
+            rec['conn'].release()
+
     async def _op_wlmsg(self, ival):
         from aioslsk.events import MessageReceivedEvent
         from aioslsk.protocol.messages import WishlistInterval
@@ -504,6 +569,8 @@ def execute(cfg, stimuli):
 
 REQ_ACTIONS = ['Search', 'CmdSearch', 'WlMsg', 'Remove', 'Reply', 'Yield', 'Advance', 'RunFirst', 'RunCancelled',
                'RunDue', 'RunCallback', 'RunUnset', 'RunWishlist', 'RunWlDue']
+HELD_ACTIONS = ['Search', 'Remove', 'ReplyHeld', 'ReplyRelease', 'RunReplyArrive', 'RunReplyResume', 'Yield',
+                'Advance', 'RunFirst', 'RunCancelled', 'RunDue', 'RunCallback', 'RunUnset']
 TIMER_ACTIONS = ['TNew', 'TStart', 'TCancel', 'TResched', 'Yield', 'Advance', 'RunFirst', 'RunCancelled', 'RunDue',
                  'RunCallback', 'RunUnset']
 
@@ -607,6 +674,7 @@ def random_request_scenario(rng, rig):
     created = 0
     wl = 0
     ticks = 0
+    held = 0
     for _ in range(rng.randrange(5, 16)):
         r = rng.random()
         if r < 0.22:
@@ -621,8 +689,14 @@ def random_request_scenario(rng, rig):
             created += items
         elif r < 0.55 and created:
             st.append(('remove', rng.randrange(1, created + 2)))
-        elif r < 0.75:
+        elif r < 0.68:
             st.append(('reply', rng.randrange(1, created + 4)))
+        elif r < 0.75:
+            if held < 3 and (created == 0 or rng.random() < 0.7):
+                st.append(('rheld', rng.randrange(2, created + 3)))
+                held += 1
+            elif held:
+                st.append(('rrelease', rng.randrange(1, held + 1)))
         elif r < 0.85:
             st.append(('yield',))
         elif ticks < 7:
@@ -741,7 +815,7 @@ def fingerprint(tid, info, trace):
         return 'C18:NoOverdue:deadline-passed-without-' + ('timer-callback' if any(
             r['ev'] == 'tnew' for r in prefix) else 'removal')
     if name == 'ResultIffLive':
-        if ev.get('ev') == 'reply' and not ev.get('res'):
+        if (ev.get('ev') == 'reply' and not ev.get('res')) or ev.get('ev') == 'rdone':
             return 'C18:ResultIffLive:no-result-event-for-reply-to-live-request'
         return 'C18:ResultIffLive:result-event-for-unregistered-or-other-request'
     if name == 'RegistryExact':
@@ -798,6 +872,17 @@ def corruptions(trace, need):
             if 'removed-event-after-manual-removal' in need:
                 yield 'removed-event-after-manual-removal', edit(lambda t: t.insert(
                     i + 1, dict(ev='removed', e=r['e'], now=r['now'], reqs=r['reqs'])))
+    if need & {'duplicate-result-of-reply-in-flight', 'drop-result-of-reply-in-flight'}:
+        i = first(lambda i, r: r['ev'] == 'result')
+        if i is not None:
+            e = trace[i]['e']
+            if 'duplicate-result-of-reply-in-flight' in need:
+                yield 'duplicate-result-of-reply-in-flight', edit(lambda t: t.insert(i + 1, copy.deepcopy(t[i])))
+            if ('drop-result-of-reply-in-flight' in need and sum(1 for r in trace if r['ev'] == 'rin') == 1
+                    and not any(r['ev'] in ('remove', 'removed') and r['e'] == e for r in trace)
+                    and any(r['ev'] == 'create' and r['e'] == e for r in trace[:i])
+                    and first(lambda j, r: r['ev'] == 'rin') > first(lambda j, r: r['ev'] == 'create' and r['e'] == e)):
+                yield 'drop-result-of-reply-in-flight', edit(lambda t: t.pop(i))
     if 'fire-after-cancel' in need:
         i = first(lambda i, r: r['ev'] == 'tcancel')
         if i is not None:
@@ -833,15 +918,19 @@ def run(chk: Check, args):
     # ---- design models -------------------------------------------------------------------
     from concurrent.futures import ThreadPoolExecutor
     deviations = (('MC_req_code_remove.cfg', 'NoLoopError'), ('MC_req_code_gen.cfg', 'DistinctTickets'),
-                  ('MC_timer_code.cfg', 'SupersededNeverFires'))
+                  ('MC_timer_code.cfg', 'SupersededNeverFires'), ('MC_req_code_reply.cfg', 'ResultIffLive'))
     with ThreadPoolExecutor(max_workers=3) as pool:
         f_req = pool.submit(dump_cover, 'MC_req_tiny.cfg')
         f_tm = pool.submit(dump_cover, 'MC_timer_tiny.cfg')
+        f_held = pool.submit(dump_cover, 'MC_req_held_tiny.cfg')
         f_dev = [pool.submit(tlc.run_tlc, SPEC, cfg, timeout=900) for cfg, _ in deviations]
         scheds_req = cover_schedules(chk, 'MC_req_tiny.cfg', 'SearchRequests requests tiny (exhaustive)',
                                      REQ_ACTIONS, f_req.result())
         scheds_tm = cover_schedules(chk, 'MC_timer_tiny.cfg', 'SearchRequests timer tiny (exhaustive)',
                                     TIMER_ACTIONS, f_tm.result())
+        # replies whose connection is slow to close, with removals / expiries inside that window
+        scheds_held = cover_schedules(chk, 'MC_req_held_tiny.cfg', 'SearchRequests held replies tiny (exhaustive)',
+                                      HELD_ACTIONS, f_held.result())
         # the code's position of each switch must break the property it is about
         for (cfg, prop), fut in zip(deviations, f_dev):
             r = fut.result()
@@ -859,6 +948,8 @@ def run(chk: Check, args):
             if k not in scheds_tm})
         r = tlc.model_check(SPEC, 'MC_req.cfg', expect_actions=REQ_ACTIONS, timeout=3000)
         chk.add_model('SearchRequests requests (exhaustive)', r)
+        r = tlc.model_check(SPEC, 'MC_req_held.cfg', expect_actions=HELD_ACTIONS, timeout=3000)
+        chk.add_model('SearchRequests held replies (exhaustive)', r)
         r = tlc.model_check(SPEC, 'MC_timer.cfg', expect_actions=TIMER_ACTIONS, timeout=3000)
         chk.add_model('SearchRequests timer (exhaustive)', r)
         r = tlc.model_check(SPEC, 'MC_timer2.cfg', expect_actions=TIMER_ACTIONS, timeout=3000)
@@ -877,6 +968,7 @@ def run(chk: Check, args):
         return keys
     req_keys = pick(scheds_req, None if thorough else 1800)
     tm_keys = pick(scheds_tm, None if thorough else 1500)
+    held_keys = pick(scheds_held, None if thorough else 1000)
     full_cover = thorough
 
     # ---- replay on the real code ----------------------------------------------------------
@@ -891,6 +983,14 @@ def run(chk: Check, args):
     for n, key in enumerate(keys[:(1500 if thorough else 250)]):
         rt, wt, st = key
         plan.append((dict(rig='F', rt=rt, wt=wt, items=1 if n % 2 else 2, conc=conc + 7 * n), st, scheds_req[key]))
+    for n, key in enumerate(held_keys):
+        rt, wt, st = key
+        plan.append((dict(rig='L', rt=rt, wt=wt, items=0, conc=conc + n), st, scheds_held[key]))
+    keys = list(held_keys)
+    chk.rng.shuffle(keys)
+    for n, key in enumerate(keys[:(600 if thorough else 150)]):
+        rt, wt, st = key
+        plan.append((dict(rig='F', rt=rt, wt=wt, items=0, conc=conc + 5 * n), st, scheds_held[key]))
     for n, key in enumerate(tm_keys):
         plan.append((dict(rig='T', tick=(1.0, 0.5, 0.25)[n % 3], conc=conc + n), key[2], scheds_tm[key]))
     for n in range(2500 if thorough else 300):
@@ -969,7 +1069,8 @@ def run(chk: Check, args):
     # ---- binding self-test: corrupted traces must be rejected --------------------------------
     want = ['drop-removed-event', 'duplicate-removed-event', 'drop-result-of-live-reply',
             'result-for-reply-with-dead-ticket', 'second-live-request-with-same-ticket',
-            'loop-error-after-removal', 'removed-event-after-manual-removal', 'fire-after-cancel', 'drop-fire']
+            'loop-error-after-removal', 'removed-event-after-manual-removal', 'fire-after-cancel', 'drop-fire',
+            'duplicate-result-of-reply-in-flight', 'drop-result-of-reply-in-flight']
     got = {w: [] for w in want}
     for tid in sorted(v.accepted):
         need = {w for w in want if len(got[w]) < 3}
